@@ -135,7 +135,8 @@ Fixpoint t_point (T : trafo) (t : Q) (d : data) : option data :=
       if (length fwd =? length d)%nat then Some fwd
       else if subsetb i (keys d) then
         let vals := map (fun c => match lookup c d with Some v => v | None => None end) i in
-        Some (fwd ++ map (fun orow => (fst orow, dot (snd orow) vals)) (combine o m))
+        Some (map (fun orow => (fst orow, dot (snd orow) vals)) (combine o m)
+              ++ filter (fun kv => negb (inb (fst kv) o)) fwd)   (* data_out[out_channel] = ... overrides a forwarded entry *)
       else None
   | TChain l => (fix go (l : list trafo) (cur : data) := match l with
                    | [] => Some cur
